@@ -550,3 +550,19 @@ pub fn parse_j(text: &str) -> J {
     }
     conv(&serde_json::from_str(text).expect("parse_j: fixed text"))
 }
+
+/// `depth` nested containers of one kind (0 array, 1 object, 2 tuple, 3 one-of) with one optional flag
+/// around a number: the families on which a per-level slip (a dropped flag, a doubled recursive call,
+/// a depth cut-off) shows
+pub fn chain(ctor: usize, opt: bool, depth: usize) -> JsonShape {
+    let mut s = JsonShape::Number { optional: false };
+    for _ in 0..depth {
+        s = match ctor {
+            0 => arr(s, opt),
+            1 => obj(vec![("a", s)], opt),
+            2 => tup(vec![s, JsonShape::String { optional: false }], opt),
+            _ => one_of(vec![s, JsonShape::Null], opt),
+        };
+    }
+    s
+}
